@@ -92,9 +92,13 @@ def flatten_sum(expr):
     sums themselves: cos(x + (pi + y)) would treat (pi + y) as the period pi
     and return -cos(x), silently dropping y.
     """
+    if isinstance(expr, sp.Mul) and not expr.free_symbols and expr.has(sp.pi):
+        # A constant (unevaluated) multiple of pi, e.g. pi * pi or 2 * pi * 3. The
+        # functions only understand an evaluated one (sin(x - pi * pi) gave -sin(x))
+        return sp.Mul(*[flatten_sum(arg) for arg in expr.args])
     if isinstance(expr, (sp.Mul, sp.Pow)):
         # The sum can also be a factor, e.g. in cos(-(x + (pi + y)))
-        if not any(arg.has(sp.Add) for arg in expr.args):
+        if not any(arg.has(sp.Add) or (arg.has(sp.pi) and arg.is_Mul) for arg in expr.args):
             return expr
         return expr.func(*[flatten_sum(arg) for arg in expr.args], evaluate=False)
     if not isinstance(expr, sp.Add):
